@@ -64,12 +64,20 @@ theorem decode_total (store : Bytes) (ty off cnt : Nat) : (decode store ty off c
       | exact map_total (rdN64_total _ _)
       | exact map_total (rdStrings_total _ _)
 
-theorem decodeAll_total (store : Bytes) (raws : List (Nat × Nat × Nat × Nat)) : (decodeAll store raws).isPanic = false := by
-  induction raws with
+theorem decodeAllB_total (store : Bytes) (budget : Nat) (raws : List (Nat × Nat × Nat × Nat)) :
+    (decodeAllB store budget raws).isPanic = false := by
+  induction raws generalizing budget with
   | nil => rfl
   | cons r rs ih =>
     obtain ⟨tag, ty, off, cnt⟩ := r
-    exact Out.bind_not_panic (decode_total _ _ _ _) (fun _ _ => Out.bind_not_panic ih (fun _ _ => rfl))
+    refine Out.bind_not_panic (decode_total _ _ _ _) (fun d _ => ?_)
+    split
+    · rfl
+    · exact Out.bind_not_panic (ih _) (fun _ _ => rfl)
+
+/-- the second loop of `parse_header`, budget check (`checked_sub`) included, never panics -/
+theorem decodeAll_total (store : Bytes) (raws : List (Nat × Nat × Nat × Nat)) : (decodeAll store raws).isPanic = false :=
+  decodeAllB_total store store.length raws
 
 theorem parseEntryRaw_total (bs : Bytes) : (parseEntryRaw bs).isPanic = false := by
   unfold parseEntryRaw
